@@ -60,6 +60,38 @@ pub fn check(c: &Case) -> CheckResult {
         let _ = guard(|| dlt_message(&damaged, None, storage).map(|(r, _)| r.len()));
         let _ = guard(|| dlt_message(&damaged[..damaged.len().saturating_sub(1)], None, storage).map(|(r, _)| r.len()));
     }
+    // the same for the writer: an ill-formed message value (variable-info flag without a name, a name without the flag, a
+    // value of another kind) serialised a moment ago on this thread must not influence how this one is written
+    let bytes = if c.suffix.len() % 3 == 2 {
+        let mut bad = m.clone();
+        if let dlt_core::dlt::PayloadContent::Verbose(args) = &mut bad.payload {
+            for (i, a) in args.iter_mut().enumerate() {
+                match i % 3 {
+                    0 => {
+                        a.type_info.has_variable_info = !a.type_info.has_variable_info;
+                    }
+                    1 => {
+                        a.name = if a.name.is_some() { None } else { Some("n".to_string()) };
+                    }
+                    _ => {
+                        a.value = dlt_core::dlt::Value::Bool(1);
+                    }
+                }
+            }
+        }
+        let _ = guard(|| bad.as_bytes().len());
+        let again = guard(|| m.as_bytes()).map_err(|p| Violation::from_panic("Message::as_bytes", &p))?;
+        if again != bytes {
+            return Err(viol!(
+                format!("roundtrip:{}:writer-history", kind),
+                "the same message serialises differently after an ill-formed message was serialised on this thread: {} vs {}",
+                hex_short(&again), hex_short(&bytes)
+            ));
+        }
+        again
+    } else {
+        bytes
+    };
     parse_back(&m, &bytes, &c.suffix, storage, kind)?;
     if c.suffix2 != c.suffix {
         parse_back(&m, &bytes, &c.suffix2, storage, kind)?;
